@@ -45,6 +45,15 @@ def get_chunk_dtype_transformer(input_dtype, output_dtype, warn=True):
         output_max = 1.0
 
     work_dtype = np.promote_types(input_dtype, output_dtype)
+    if (np.issubdtype(input_dtype, np.integer)
+            and np.issubdtype(output_dtype, np.integer)
+            and not np.issubdtype(work_dtype, np.integer)):
+        # There is no common integer type (signed input, uint64 output): NumPy
+        # promotes to float64, which cannot hold all 64-bit integers. Clip
+        # within the input type instead, the cast is then exact.
+        work_dtype = input_dtype
+        output_min = max(output_min, np.iinfo(input_dtype).min)
+        output_max = min(output_max, np.iinfo(input_dtype).max)
 
     round_to_nearest = (
         np.issubdtype(output_dtype, np.integer)
